@@ -130,7 +130,7 @@ RECURSIVE RunTA(_, _, _)
 RunTA(evs, k, ts) == IF k > Len(evs) THEN ts ELSE RunTA(evs, k + 1, TA!Step(evs[k], ts, {}).ts)
 \* every event of the script lies inside the fragment TypedArr specifies (texts of the rendered elements, ...)
 RECURSIVE RunOK(_, _, _)
-RunOK(evs, k, ts) == k > Len(evs) \/ (TA!EvOK(evs[k], ts) /\ RunOK(evs, k + 1, TA!Step(evs[k], ts, {}).ts))
+RunOK(evs, k, ts) == IF k > Len(evs) THEN TRUE ELSE IF ~TA!EvOK(evs[k], ts) THEN FALSE ELSE RunOK(evs, k + 1, TA!Step(evs[k], ts, {}).ts)
 
 \* ---------------- RW: read paths x write paths x what happened before, on the views of ONE buffer -------------------
 \* "Views over one buffer see each other's writes" quantifies over HOW a view is read (element by element, rendered by
@@ -138,7 +138,7 @@ RunOK(evs, k, ts) == k > Len(evs) \/ (TA!EvOK(evs[k], ts) /\ RunOK(evs, k + 1, T
 \* observer itself, another view of the buffer, a subarray of the observer; index assignment, set from an array, set from a
 \* typed array), and over the HISTORY of the observer: whether it was read the same way before the write, and whether the
 \* writing view existed at that time.  A script of the family:
-\*   views  1 = A (kind ka, the whole 16-byte buffer, filled 1..n through A)     2 = D (the observer's kind, private: copy target)
+\*   views  1 = A (kind ka, the whole buffer: two elements of the wider kind, filled 1..n through A)     2 = D (the observer's kind, private: copy target)
 \*          3 = P (private Int8Array [x]: source of set-from-a-typed-array)       4 = B (kind kb, the whole buffer)
 \*          5 = S = A.subarray(1)
 \*   <read obs by r1> ; <write the LAST element of view w by meth> ; <read obs by r2>      (obs, w in {A, B, S})
@@ -151,18 +151,18 @@ RWCore      == {"join", "tostr", "copy"}
 RWMeths     == {"idx", "setarr", "setview"}
 RWViews     == {1, 4, 5}
 RWObs       == {<<1, FALSE>>, <<1, TRUE>>, <<4, FALSE>>, <<5, FALSE>>}
-RWElems(kd) == 16 \div TA!Size(kd)
+RWBytes(ka, kb) == 2 * Max(TA!Size(ka), TA!Size(kb))            \* two elements of the wider kind
 Iota(n)     == [i \in 1..n |-> VInt(i)]
 RWCell(ka, kb, o, r1, w, meth, r2, x) == [ka |-> ka, kb |-> kb, obs |-> o[1], late |-> o[2], r1 |-> r1, w |-> w, meth |-> meth, r2 |-> r2, x |-> x]
 RWObsKind(g) == IF g.obs = 4 THEN g.kb ELSE g.ka
-RWLen(g, v)  == IF v = 4 THEN RWElems(g.kb) ELSE IF v = 5 THEN RWElems(g.ka) - 1 ELSE RWElems(g.ka)
+RWLen(g, v)  == LET n == RWBytes(g.ka, g.kb) IN IF v = 4 THEN n \div TA!Size(g.kb) ELSE IF v = 5 THEN n \div TA!Size(g.ka) - 1 ELSE n \div TA!Size(g.ka)
 RWRead(v, r) == CASE r = "none" -> <<>>
                   [] r = "join" -> <<EJoin(v, <<>>)>>
                   [] r = "sep" -> <<EJoin(v, <<VStr(U("-"))>>)>>
                   [] r = "tostr" -> <<EToStr(v)>>
                   [] r = "copy" -> <<ESet(2, ViewSrc(v), <<>>)>>
 RWEvs(g) ==
-  LET setup == <<ENewBuf(16), EView(g.ka, 1, <<>>), ESet(1, ArrSrc(Iota(RWElems(g.ka))), <<>>),
+  LET setup == <<ENewBuf(RWBytes(g.ka, g.kb)), EView(g.ka, 1, <<>>), ESet(1, ArrSrc(Iota(RWLen(g, 1))), <<>>),
                  ENewLen(RWObsKind(g), <<VInt(RWLen(g, g.obs))>>), ENewArr("Int8Array", <<g.x>>)>>
       mk == <<EView(g.kb, 1, <<>>), ESub(1, <<VInt(1)>>)>>
       pre == RWRead(g.obs, g.r1)
@@ -173,19 +173,22 @@ RWEvs(g) ==
   IN setup \o (IF g.late THEN pre \o mk ELSE mk \o pre) \o wr \o RWRead(g.obs, g.r2)
 RWProduct(pairs, R1, R2, M, X) ==
   {RWCell(p[1], p[2], o, r1, w, m, r2, x) : p \in pairs, o \in RWObs, r1 \in R1, w \in RWViews, m \in M, r2 \in R2, x \in X}
-\* quick: the full product of read paths x writers x methods for two lead pairs of kinds (different element sizes, either
-\* way round); every kind as the observer's and the writer's kind (the diagonal: rendering stays inside the specified
-\* number -> text fragment for every kind) and four more mixed pairs with every read path (the same before and after),
-\* writer and observer.  RWLaw (model-checked) states that no class is lost to the fragment filter RunOK.
-RWLead  == {<<"Uint8Array", "Uint16Array">>, <<"Int16Array", "Uint8Array">>}
+\* quick: the full product of read paths x writers x methods x observers for one lead pair of kinds (different element
+\* sizes; observer B turns the pair round); every kind as the observer's and the writer's kind (the diagonal: rendering stays
+\* inside the specified number -> text fragment for every kind) and a second mixed pair with every read path (the same before
+\* and after), writer and observer.  RWLaw (model-checked) states that no class is lost to the fragment filter RunOK.
+\* (operators with a parameter: TLC evaluates zero-arity constants eagerly in every JVM and worker)
+RWLead  == {<<"Uint8Array", "Uint16Array">>}
+RWLead2 == {<<"Int16Array", "Uint8Array">>}
 RWDiag  == {<<kd, kd>> : kd \in TA!KindSet}
 RWMixed == {<<"Int32Array", "Uint8Array">>, <<"Uint8ClampedArray", "Int16Array">>, <<"Uint32Array", "Uint16Array">>, <<"Int8Array", "Int32Array">>}
-\* (operators with a parameter: TLC evaluates zero-arity constants eagerly in every JVM and worker)
+RWSame(G) == {g \in G : g.r1 = g.r2}
 RWQuickGrid(q) == RWProduct(RWLead, RWReadsPre, RWCore, RWMeths, {VInt(9)})
-               \cup {g \in RWProduct(RWDiag \cup RWMixed, RWCore, RWCore, {"idx"}, {VInt(9)}) : g.r1 = g.r2}
-               \cup {g \in RWProduct(RWLead, {"join"}, {"sep"}, {"idx"}, {VInt(9)}) : TRUE}
-RWFullGrid(q) == RWProduct(TA!KindSet \X TA!KindSet, RWReadsPre, RWReadsPost, RWMeths, {VInt(9)})
-              \cup RWProduct(RWDiag \cup RWLead, RWCore, RWCore, {"idx", "setarr"}, {VInt(-2), VNumW(W1p5), VInt(300)})
+                  \cup RWSame(RWProduct(RWDiag \cup RWLead2, RWCore, RWCore, {"idx"}, {VInt(9)}))
+                  \cup RWProduct(RWLead, {"join"}, {"sep"}, {"idx"}, {VInt(9)})
+RWFullGrid(q) == RWSame(RWProduct(TA!KindSet \X TA!KindSet, RWCore, RWCore, {"idx"}, {VInt(9)}))
+                 \cup RWProduct(RWLead \cup RWLead2 \cup RWDiag \cup RWMixed, RWReadsPre, RWReadsPost, RWMeths, {VInt(9)})
+                 \cup RWSame(RWProduct(RWLead \cup RWLead2 \cup RWDiag, RWCore, RWCore, {"idx", "setarr"}, {VInt(-2), VNumW(W1p5), VInt(300)}))
 RWGrid(q) == IF q THEN RWQuickGrid(q) ELSE RWFullGrid(q)
 RWOk(g) == (g.late => g.obs = 1) /\ RunOK(RWEvs(g), 1, TA!EmptyTS)
 \* the quick sub-grid contains every class of the family, inside the specified fragment:
@@ -278,8 +281,9 @@ EnumTA ==
      \E vals \in {<<>>, <<VInt(1)>>, <<VInt(1), VInt(2), VInt(3)>>, <<VNumW(W1p5), VInt(-1)>>, <<VNaN, VNumW(WPosInf), VNumW(WNegZero)>>} :
        LET c == TACase(<<ENewArr(kd, vals), EJoin(1, s), EToStr(1)>>)
        IN TA!EvOK(c.evs[2], RunTA(c.evs, 1, TA!EmptyTS)) /\ Emit(c)
-  \/ \E g \in RWGrid(Quick) : RWOk(g) /\ Emit([ty |-> "ta", evs |-> RWEvs(g), fam |-> "rw"])
-EnumNext == ph = "start" /\ (EnumPlain \/ EnumCallbacks \/ EnumSort \/ EnumTA)
+EnumRW == \E g \in RWGrid(Quick) : RWOk(g) /\ Emit([ty |-> "ta", evs |-> RWEvs(g), fam |-> "rw"])
+Parts == IF "C17_PARTS" \in DOMAIN IOEnv THEN IOEnv.C17_PARTS ELSE "all"          \* development switch: "rw" = this family only
+EnumNext == ph = "start" /\ (IF Parts = "rw" THEN EnumRW ELSE (EnumPlain \/ EnumCallbacks \/ EnumSort \/ EnumTA \/ EnumRW))
 EnumEmit == ph = "start" \/ PrintT(ToJson(cur))
 
 \* ---------------- Laws of the references (INVARIANT LawsHold in the Enum configuration) ------------------
